@@ -55,19 +55,20 @@ type checkpoint struct {
 }
 
 func (s *checkpoint) Save() {
-	_, _, anyDirtyOffset := s.stream.GetOffsets()
+	// wait for a save that is in flight before deciding that there is nothing to do: it has taken
+	// the dirty set over, so the final save of a shutdown must not return before it has finished
+	s.saveLock.Lock()
+	defer s.saveLock.Unlock()
+
+	offsets, dirtyOffsets, anyDirtyOffset := s.stream.GetOffsets()
 
 	if !anyDirtyOffset {
 		logger.Log.Trace("no need to save checkpoint")
 		return
 	}
 
-	s.saveLock.Lock()
-	defer s.saveLock.Unlock()
-
 	// take the dirty set over before dumping it: an acknowledgement that lands while the store
 	// call is in flight marks the next save's set and is not wiped when this save succeeds
-	offsets, dirtyOffsets, _ := s.stream.GetOffsets()
 	s.stream.UnmarkDirtyOffsets()
 
 	checkpointDump := map[uint16]*models.CheckpointDocument{}
